@@ -180,12 +180,17 @@ pub fn kind_name(e: &starlark::Error) -> &'static str {
 /// Encode an error: kind, message (no location), span validity, call stack validity.
 pub fn err_json(e: &starlark::Error) -> J {
     let msg = format!("{}", e.without_diagnostic());
+    let mut resolved = J::Null;
     let (span, span_ok) = match e.span() {
         Some(fs) => {
             let src = fs.file.source();
             let b = fs.span.begin().get() as usize;
             let en = fs.span.end().get() as usize;
             let ok = b <= en && en <= src.len() && src.is_char_boundary(b) && src.is_char_boundary(en);
+            if ok {
+                let r = fs.resolve_span();
+                resolved = json!([r.begin.line, r.begin.column, r.end.line, r.end.column]);
+            }
             (json!([fs.file.filename(), b, en]), ok)
         }
         None => (J::Null, true),
@@ -211,7 +216,7 @@ pub fn err_json(e: &starlark::Error) -> J {
         }
     }
     json!({"kind": kind_name(e), "msg": msg, "span": span, "span_ok": span_ok,
-           "frames": frames, "frames_ok": frames_ok, "full": format!("{}", e)})
+           "frames": frames, "frames_ok": frames_ok, "full": format!("{}", e), "resolved": resolved})
 }
 
 fn configure<'v, 'a, 'e>(
